@@ -302,7 +302,7 @@ func runC20(c *mon.Ctx) {
 					m = 1 + rng.Intn(n+2)
 				}
 				if rng.Intn(12) == 0 {
-					m = []int{1 << 10, 1 << 16, 1 << 20, 1<<31 - 1, 257, 512, 1023, 1 << 31, 1 << 48, 1 << 62, math.MaxInt}[rng.Intn(11)] // far more workers allowed than iterations
+					m = []int{1 << 10, 1 << 16, 1 << 20, 1<<31 - 1, 257, 512, 1023, math.MaxInt/2 + 1, math.MaxInt >> 15, math.MaxInt >> 1, math.MaxInt}[rng.Intn(11)] // far more workers allowed than iterations
 				}
 				if rng.Intn(25) == 0 {
 					// iteration counts around 2^12, 2^16 and beyond 2^20 (16-bit counters, chunk tables)
